@@ -132,6 +132,8 @@ func (t *GoType) HasDirectMethod(name string) bool {
 // GetConverter returns the TypeConverter for this type, creating it on first
 // use. This is safe for concurrent use by multiple goroutines.
 func (t *GoType) GetConverter() (TypeConverter, error) {
+	verifLock(goTypeMutex, 0)
+	defer verifLock(goTypeMutex, 1)
 	goTypeMutex.Lock()
 	defer goTypeMutex.Unlock()
 
